@@ -62,7 +62,7 @@ def std_case(item):
     old_handlers = {s: signal.getsignal(s) for s in (signal.SIGTERM, signal.SIGINT, signal.SIGALRM)}
 
     def check_state(ns, *a, **k):
-        if target == "fin":
+        if target in ("fin", "init"):
             return o_check(ns, *a, **k)
         if not state["started"] and ns.iteration == target - 1 and ns.live_points is not None:
             state["started"] = True
@@ -91,8 +91,26 @@ def std_case(item):
                     win.stop(extra_frames=[sys._getframe(1)])
         return o_fin(ns, *a, **k)
 
+    o_init = NS.initialise
+
+    def initialise(ns, *a, **k):
+        # window over the initialisation (proposals, initial live points) of a fresh run
+        if target == "init" and not state["started"]:
+            state["started"] = True
+            state["pre"] = dict(live=np.empty(0, dtype=[("x0", "f8")]), nested=[], iteration=0)
+            state["info"] = dict(phase="initialise", populated=False)
+            win.start(extra_frames=[sys._getframe(1)])
+            try:
+                return o_init(ns, *a, **k)
+            finally:
+                if not state["stopped"]:
+                    state["stopped"] = True
+                    win.stop(extra_frames=[sys._getframe(1)])
+        return o_init(ns, *a, **k)
+
     NS.check_state = check_state
     NS.finalise = finalise
+    NS.initialise = initialise
     res = dict(errs=[], fired=None, events=None, info={})
     model = make("G2")
     exit_code = None
@@ -113,6 +131,7 @@ def std_case(item):
     except Exception as e:
         NS.check_state = o_check
         NS.finalise = o_fin
+        NS.initialise = o_init
         for s, h in old_handlers.items():
             signal.signal(s, h)
         shutil.rmtree(out, ignore_errors=True)
@@ -120,6 +139,7 @@ def std_case(item):
     finally:
         NS.check_state = o_check
         NS.finalise = o_fin
+        NS.initialise = o_init
     res["info"] = state["info"]
     if fire_at is None:
         res["events"] = win.events
@@ -170,7 +190,13 @@ def inspect_and_continue_std(out, kw, pre, res):
     if len(set(nb)) != len(nb):
         errs.append(("discarded-point-recorded-twice", ""))
     consumed = False
-    if live is None and res.get("info", {}).get("phase") == "finalise":
+    unstarted = False
+    if res.get("info", {}).get("phase") == "initialise" and live is None:
+        # during the initialisation the other consistent form is "nothing sampled yet"
+        unstarted = True
+        if len(nested) or ns.iteration != 0 or len(ns.insertion_indices):
+            errs.append(("initialisation-checkpoint-holds-samples-without-live-points", f"{len(nested)} discarded, iteration {ns.iteration}"))
+    elif live is None and res.get("info", {}).get("phase") == "finalise":
         # inside NestedSampler.finalise the other consistent form is "every live point
         # consumed": no live set, the discarded points are exactly the earlier ones plus
         # each final live point once, and only the earlier ones have insertion indices
@@ -202,7 +228,7 @@ def inspect_and_continue_std(out, kw, pre, res):
     if not consumed and ns.iteration != len(nested):
         errs.append(("iteration-differs-from-discarded-count", f"{ns.iteration} vs {len(nested)}"))
     # none lost: every point present before the signal is still present exactly once
-    if live is not None and pre is not None:
+    if live is not None and pre is not None and res.get("info", {}).get("phase") != "initialise":
         def strip(r):
             r = r.copy()
             return r.tobytes()
@@ -375,7 +401,7 @@ def ins_case(item):
 
 def run(ctx):
     seed = ctx.seed
-    std_targets = [5, 21, 23, "fin"] if ctx.quick else [1, 5, 20, 21, 22, 23, 30, 45, "fin"]
+    std_targets = ["init", 5, 21, 23, "fin"] if ctx.quick else ["init", 1, 5, 20, 21, 22, 23, 30, 45, "fin"]
     ins_targets = [1, "fin"] if ctx.quick else [0, 1, 2, "fin"]
     # counting runs
     count_items = [("std", (seed, t, None, signal.SIGTERM, False)) for t in std_targets] + [("ins", (seed, t, None, signal.SIGTERM, False)) for t in ins_targets]
@@ -413,7 +439,7 @@ def run(ctx):
             ctx.violation(f"{kind}:inconsistent-after-signal@{site}", f"{c}: {d} | signal {int(item[3])} before line [{site}] (iteration {item[1]}, frames {chain})", {"kind": kind, "item": [x if isinstance(x, (bool, str)) or x is None else int(x) for x in item]})
             break
     ctx.set("distinct_nontrivial", len(site_classes))
-    ctx.set("rule", "signal handler invoked before every line event of every nessai frame inside the chosen iterations and inside the finalisation of both samplers ('fin': from entry to NestedSampler.finalise / ImportanceNestedSampler.finalise until it returns, including the forced final checkpoint write) (loop bodies de-duplicated to first/second/last occurrence of each (function, line)); thorough adds more iterations, opcode-level events in consume_sample / insert_live_point / _NSIntegralState.increment and SIGINT/SIGALRM on a sub-lattice. Distinct/non-trivial: distinct sampler-level statements (site keys) interrupted")
+    ctx.set("rule", "signal handler invoked before every line event of every nessai frame inside the chosen iterations, inside the initialisation of a fresh standard run ('init': NestedSampler.initialise, i.e. proposals and initial live points) and inside the finalisation of both samplers ('fin': from entry to NestedSampler.finalise / ImportanceNestedSampler.finalise until it returns, including the forced final checkpoint write) (loop bodies de-duplicated to first/second/last occurrence of each (function, line)); thorough adds more iterations, opcode-level events in consume_sample / insert_live_point / _NSIntegralState.increment and SIGINT/SIGALRM on a sub-lattice. Distinct/non-trivial: distinct sampler-level statements (site keys) interrupted")
     ctx.set("bounds", dict(std_iterations=std_targets, ins_iterations=ins_targets, signals=["SIGTERM"] + ([] if ctx.quick else ["SIGINT", "SIGALRM"])))
     ctx.set("exhaustive", True)
     ctx.assume(
